@@ -198,6 +198,11 @@ def hashable_rows(
     if len(as_int.shape) == 1:
         return as_int
 
+    # a single column is hashable as-is: packing it would need
+    # an offset of `2**63` which overflows the int64 it is added to
+    if len(as_int.shape) == 2 and as_int.shape[1] == 1:
+        return as_int.reshape(-1)
+
     # if array is 2D and smallish, we can try bitbanging
     # this is significantly faster than the custom dtype
     if allow_int and len(as_int.shape) == 2 and as_int.shape[1] <= 4:
